@@ -14,6 +14,15 @@ Proof. unfold py_nth. assert (E : (Z.of_nat j <? 0) = false) by lia. rewrite !E.
 Lemma bpy_set_nat {A} (l : list A) (j : nat) x : py_set l (Z.of_nat j) x = upd_nth l j x.
 Proof. unfold py_set. assert (E : (Z.of_nat j <? 0) = false) by lia. rewrite !E. rewrite Nat2Z.id. reflexivity. Qed.
 
+(* the frames A puts on the wire, each with the network's time at the step that emitted it *)
+Definition newtx22 (s s' : net22) : list (Z * frame) := map (fun f => (fclk s, f)) (skipn (length (wab2 s)) (wab2 s')).
+Fixpoint tlog22 (j : nat) (s : net22) : list (Z * frame) :=
+  match j with O => [] | S j' => newtx22 s (step22 s) ++ tlog22 j' (step22 s) end.
+Lemma newtx22_same s s' : wab2 s' = wab2 s -> newtx22 s s' = [].
+Proof. intros E. unfold newtx22. rewrite E, skipn_all. reflexivity. Qed.
+Lemma newtx22_snoc s s' l : wab2 s' = wab2 s ++ l -> newtx22 s s' = map (fun f => (fclk s, f)) l.
+Proof. intros E. unfold newtx22. rewrite E, skipn_app, skipn_all, Nat.sub_diag. reflexivity. Qed.
+
 Section BamLoop22.
   Variables (prio sa dp pf : Z) (p : list Z) (t0 : Z) (A0 B0 : node22).
   Hypothesis Hprio : 0 <= prio < 8.
@@ -287,22 +296,22 @@ Section BamLoop22.
     (exists d, f_snd (fa s) = [(h, sbm tp22_st_SENDING_BAM (t0 + iv) 0 d)] /\ rowsb d 0) /\ f_rcv (fb s) = [] /\
     evb2 s = [] /\ wab2 s = [bam22].
   Definition BmWait (k : nat) (s : net22) : Prop :=
-    exists c, fclk s = c /\ 0 < c /\ benvs s /\ pa s = [] /\ pb s = [] /\ (k <= ns)%nat /\
+    exists c, fclk s = c /\ (0 < c /\ c = t0 + Z.of_nat k * iv) /\ benvs s /\ pa s = [] /\ pb s = [] /\ (k <= ns)%nat /\
       (exists d, f_snd (fa s) = [(h, sbm (stA k) (c + iv) (Z.of_nat k) d)] /\ rowsb d k) /\
       f_rcv (fb s) = [(h, rbm (dB k c) (Z.of_nat k + 1) (firstn (60 * k) p))] /\
       evb2 s = [] /\ wab2 s = bam22 :: dtfsb 0 k.
   Definition BmDue (k : nat) (s : net22) : Prop :=
-    exists c, fclk s = c /\ 0 < c - iv /\ benvs s /\ pa s = [] /\ pb s = [] /\ (k <= ns)%nat /\
+    exists c, fclk s = c /\ (0 < c - iv /\ c = t0 + Z.of_nat (S k) * iv) /\ benvs s /\ pa s = [] /\ pb s = [] /\ (k <= ns)%nat /\
       (exists d, f_snd (fa s) = [(h, sbm (stA k) c (Z.of_nat k) d)] /\ rowsb d k) /\
       f_rcv (fb s) = [(h, rbm (dB k (c - iv)) (Z.of_nat k + 1) (firstn (60 * k) p))] /\
       evb2 s = [] /\ wab2 s = bam22 :: dtfsb 0 k.
   Definition BmFly (k : nat) (s : net22) : Prop :=
-    exists c, fclk s = c /\ 0 < c - iv /\ benvs s /\ pa s = [] /\ pb s = [dtfb k] /\ (k < ns)%nat /\
+    exists c, fclk s = c /\ (0 < c - iv /\ c = t0 + Z.of_nat (S k) * iv) /\ benvs s /\ pa s = [] /\ pb s = [dtfb k] /\ (k < ns)%nat /\
       (exists d, f_snd (fa s) = [(h, sbm (stA (S k)) (c + iv) (Z.of_nat (S k)) d)] /\ rowsb d (S k)) /\
       f_rcv (fb s) = [(h, rbm (dB k (c - iv)) (Z.of_nat k + 1) (firstn (60 * k) p))] /\
       evb2 s = [] /\ wab2 s = bam22 :: dtfsb 0 (S k).
   Definition BmEoms (s : net22) : Prop :=
-    f_rcv (fa s) = [] /\ benvB22 (fb s) /\ pa s = [] /\ pb s = [eomsb] /\ f_snd (fa s) = [] /\ f_bam (fa s) = repeat true tp22_pool_bam /\
+    fclk s = t0 + Z.of_nat (S ns) * iv /\ f_rcv (fa s) = [] /\ benvB22 (fb s) /\ pa s = [] /\ pb s = [eomsb] /\ f_snd (fa s) = [] /\ f_bam (fa s) = repeat true tp22_pool_bam /\
     (exists dl nx, f_rcv (fb s) = [(h, rbm dl nx p)]) /\ evb2 s = [] /\ wab2 s = bam22 :: dtfsb 0 ns ++ [eomsb].
   Definition BmDone (s : net22) : Prop :=
     pa s = [] /\ pb s = [] /\ f_snd (fa s) = [] /\ f_rcv (fa s) = [] /\ f_snd (fb s) = [] /\ f_rcv (fb s) = [] /\
@@ -327,7 +336,7 @@ Section BamLoop22.
 
   Lemma M1 k s : BmWait k s -> BmDue k (step22 s).
   Proof.
-    intros (c & Hc & Hc0 & (Ea & Eb) & Hpa & Hpb & Hk & (d & Hs & Hrows) & Hr & Hev & Hw).
+    intros (c & Hc & (Hc0 & Hct) & (Ea & Eb) & Hpa & Hpb & Hk & (d & Hs & Hrows) & Hr & Hev & Hw).
     rewrite (bstep22_idle s) by assumption. rewrite Hc.
     assert (HdB : c + iv < dB k c /\ dB k c < c + 5000000).
     { unfold dB, tp22_T1 in *. destruct (k =? ns)%nat; lia. }
@@ -336,7 +345,7 @@ Section BamLoop22.
     cbn [txs flat_map evs filter sleep_of andb]. rewrite !Z.eqb_refl. cbn [andb].
     assert (Hdt : Z.max 0 (Z.min (c + iv - c) (dB k c - c)) = iv) by lia. rewrite Hdt.
     exists (c + iv). cbn [fa fb pa pb fclk evb2 wab2].
-    split; [reflexivity|]. split; [lia|]. split; [split; assumption|].
+    split; [reflexivity|]. split; [split; [lia|rewrite Hct, Nat2Z.inj_succ; ring]|]. split; [split; assumption|].
     split; [reflexivity|]. split; [reflexivity|]. split; [exact Hk|]. split; [exists d; split; assumption|].
     split; [rewrite Hr; replace (c + iv - iv) with c by lia; reflexivity|].
     split; [rewrite Hev; reflexivity|rewrite Hw, app_nil_r; reflexivity].
@@ -351,7 +360,7 @@ Section BamLoop22.
 
   Lemma M2 k s : BmDue k s -> (k < ns)%nat -> BmFly k (step22 s).
   Proof.
-    intros (c & Hc & Hc0 & (Ea & Eb) & Hpa & Hpb & _ & (d & Hs & Hrows) & Hr & Hev & Hw) Hk.
+    intros (c & Hc & (Hc0 & Hct) & (Ea & Eb) & Hpa & Hpb & _ & (d & Hs & Hrows) & Hr & Hev & Hw) Hk.
     rewrite (bstep22_idle s) by assumption. rewrite Hc.
     assert (EstA : stA k = tp22_st_SENDING_BAM) by (unfold stA; destruct (Nat.eqb_spec k ns); [lia|reflexivity]).
     rewrite EstA in Hs.
@@ -361,7 +370,7 @@ Section BamLoop22.
     rewrite (jobB22_wait (fb s) c (dB k (c - iv)) _ _ Eb Hr) by lia.
     cbn [txs flat_map evs filter sleep_of andb app].
     exists c. cbn [fa fb pa pb fclk evb2 wab2].
-    split; [lia|]. split; [lia|]. split; [split; [apply benvA22_snd; exact Ea|exact Eb]|].
+    split; [lia|]. split; [split; [lia|exact Hct]|]. split; [split; [apply benvA22_snd; exact Ea|exact Eb]|].
     split; [reflexivity|]. split; [reflexivity|]. split; [exact Hk|].
     split; [exists d'; split; [reflexivity|exact Hrows']|].
     split; [exact Hr|]. split; [rewrite Hev; reflexivity|rewrite Hw, <- dtfsb_snoc; reflexivity].
@@ -369,11 +378,11 @@ Section BamLoop22.
 
   Lemma M3 k s : BmFly k s -> BmWait (S k) (step22 s).
   Proof.
-    intros (c & Hc & Hc0 & (Ea & Eb) & Hpa & Hpb & Hk & HsA & Hr & Hev & Hw).
+    intros (c & Hc & (Hc0 & Hct) & (Ea & Eb) & Hpa & Hpb & Hk & HsA & Hr & Hev & Hw).
     rewrite (bstep22_b s (dtfb k) []) by exact Hpb. rewrite Hc.
     rewrite (hB22_bdt (fb s) c _ k Hr Hk). cbn [txs flat_map evs filter app].
     exists c. cbn [fa fb pa pb fclk evb2 wab2].
-    split; [reflexivity|]. split; [lia|].
+    split; [reflexivity|]. split; [split; [lia|exact Hct]|].
     assert (EdB : dB k (c - iv) = c - iv + tp22_T1) by (unfold dB; destruct (Nat.eqb_spec k ns); [lia|reflexivity]).
     assert (EZ : Z.of_nat (S k) + 1 = Z.of_nat k + 2) by lia.
     split; [split; [exact Ea|destruct (S k =? ns)%nat; [apply benvB22_wake|]; apply benvB22_rcv; exact Eb]|].
@@ -387,7 +396,7 @@ Section BamLoop22.
 
   Lemma M2e s : BmDue ns s -> BmEoms (step22 s).
   Proof.
-    intros (c & Hc & Hc0 & (Ea & Eb) & Hpa & Hpb & _ & (d & Hs & Hrows) & Hr & Hev & Hw).
+    intros (c & Hc & (Hc0 & Hct) & (Ea & Eb) & Hpa & Hpb & _ & (d & Hs & Hrows) & Hr & Hev & Hw).
     rewrite (bstep22_idle s) by assumption. rewrite Hc.
     assert (EstA : stA ns = tp22_st_SENDING_EOM_STATUS) by (unfold stA; rewrite Nat.eqb_refl; reflexivity).
     rewrite EstA in Hs.
@@ -398,7 +407,7 @@ Section BamLoop22.
     cbn [txs flat_map evs filter sleep_of andb app].
     unfold BmEoms. cbn [fa fb pa pb fclk evb2 wab2].
     destruct Ea as (Ar & _).
-    split; [destruct (fa s); exact Ar|]. split; [exact Eb|]. split; [reflexivity|]. split; [reflexivity|].
+    split; [lia|]. split; [destruct (fa s); exact Ar|]. split; [exact Eb|]. split; [reflexivity|]. split; [reflexivity|].
     split; [destruct (fa s); reflexivity|]. split; [destruct (fa s); reflexivity|].
     split; [eexists _, _; rewrite Hr, firstn_all_p; reflexivity|].
     split; [rewrite Hev; reflexivity|rewrite Hw; reflexivity].
@@ -406,7 +415,7 @@ Section BamLoop22.
 
   Lemma M4 s : BmEoms s -> BmDone (step22 s).
   Proof.
-    intros (Ar & Eb & Hpa & Hpb & Hs & Hp & (dl & nx & Hr) & Hev & Hw).
+    intros (_ & Ar & Eb & Hpa & Hpb & Hs & Hp & (dl & nx & Hr) & Hev & Hw).
     rewrite (bstep22_b s eomsb []) by exact Hpb.
     rewrite (hB22_beoms (fb s) (fclk s) dl nx Eb Hr). unfold bdelivered22 at 1 2 3. rewrite txs_deliveries, evs_deliveries. fold bdelivered22.
     unfold BmDone. cbn [fa fb pa pb fclk evb2 wab2]. destruct Eb as (Bs & _).
@@ -446,6 +455,62 @@ Section BamLoop22.
 
   Theorem bam_closed_loop22 : breaches (net22_send (net22_0 A0 B0 t0) dp pf 255 prio sa p).
   Proof. apply breaches_step. apply (wait_reaches (ns - 0)%nat 0%nat); [reflexivity|]. apply M0. apply bstart. Qed.
+
+  (* ---- the same run with the time of every frame A puts on the wire *)
+  Definition treaches (s : net22) (L : list (Z * frame)) : Prop := exists j, BmDone (steps22 j s) /\ tlog22 j s = L.
+  Lemma treaches_step s L : treaches (step22 s) L -> treaches s (newtx22 s (step22 s) ++ L).
+  Proof. intros (j & H & E). exists (S j). split; [exact H|]. cbn [tlog22]. rewrite E. reflexivity. Qed.
+
+  Lemma wait_w k s : BmWait k s -> wab2 s = bam22 :: dtfsb 0 k.
+  Proof. intros (c & _ & _ & _ & _ & _ & _ & _ & _ & _ & Hw). exact Hw. Qed.
+  Lemma due_w k s : BmDue k s -> wab2 s = bam22 :: dtfsb 0 k /\ fclk s = t0 + Z.of_nat (S k) * iv.
+  Proof. intros (c & Hc & (_ & Hct) & _ & _ & _ & _ & _ & _ & _ & Hw). split; [exact Hw|rewrite Hc; exact Hct]. Qed.
+  Lemma fly_w k s : BmFly k s -> wab2 s = bam22 :: dtfsb 0 (S k).
+  Proof. intros (c & _ & _ & _ & _ & _ & _ & _ & _ & _ & Hw). exact Hw. Qed.
+  Lemma eoms_w s : BmEoms s -> wab2 s = bam22 :: dtfsb 0 ns ++ [eomsb].
+  Proof. intros (_ & _ & _ & _ & _ & _ & _ & _ & _ & Hw). exact Hw. Qed.
+  Lemma done_w s : BmDone s -> wab2 s = bam22 :: dtfsb 0 ns ++ [eomsb].
+  Proof. intros (_ & _ & _ & _ & _ & _ & _ & _ & Hw). exact Hw. Qed.
+
+  Definition stamp (k : nat) : Z := t0 + Z.of_nat (S k) * iv.
+  Definition tail_log (k : nat) : list (Z * frame) := map (fun i => (stamp i, dtfb i)) (seq k (ns - k)) ++ [(stamp ns, eomsb)].
+
+  Lemma wait_treaches : forall r k s, (ns - k = r)%nat -> BmWait k s -> treaches s (tail_log k).
+  Proof.
+    induction r as [r IH] using lt_wf_ind. intros k s Hr Hsh.
+    assert (Hk : (k <= ns)%nat) by (destruct Hsh as (c & _ & _ & _ & _ & _ & Hk & _); exact Hk).
+    pose proof (M1 k s Hsh) as Hd. pose proof (wait_w k s Hsh) as W0. destruct (due_w k _ Hd) as (W1 & C1).
+    destruct (Nat.eq_dec k ns) as [E|E].
+    - subst k. pose proof (M2e _ Hd) as He. pose proof (M4 _ He) as Hf.
+      pose proof (eoms_w _ He) as W2. pose proof (done_w _ Hf) as W3.
+      replace (tail_log ns) with (newtx22 s (step22 s) ++ newtx22 (step22 s) (step22 (step22 s)) ++
+                                  newtx22 (step22 (step22 s)) (step22 (step22 (step22 s))) ++ []).
+      + apply treaches_step. apply treaches_step. apply treaches_step. exists 0%nat. split; [exact Hf|reflexivity].
+      + rewrite (newtx22_same s) by (rewrite W0, W1; reflexivity).
+        rewrite (newtx22_snoc (step22 s) _ [eomsb]) by (rewrite W1, W2; reflexivity).
+        rewrite (newtx22_same (step22 (step22 s))) by (rewrite W2, W3; reflexivity).
+        rewrite C1. unfold tail_log, stamp. rewrite Nat.sub_diag. reflexivity.
+    - assert (Hk' : (k < ns)%nat) by lia.
+      pose proof (M2 k _ Hd Hk') as Hf. pose proof (M3 k _ Hf) as Hw. pose proof (fly_w k _ Hf) as W2. pose proof (wait_w _ _ Hw) as W3.
+      replace (tail_log k) with (newtx22 s (step22 s) ++ newtx22 (step22 s) (step22 (step22 s)) ++
+                                 newtx22 (step22 (step22 s)) (step22 (step22 (step22 s))) ++ tail_log (S k)).
+      + apply treaches_step. apply treaches_step. apply treaches_step.
+        apply (IH (ns - S k)%nat ltac:(lia) (S k)); [reflexivity|exact Hw].
+      + rewrite (newtx22_same s) by (rewrite W0, W1; reflexivity).
+        rewrite (newtx22_snoc (step22 s) _ [dtfb k]) by (rewrite W1, W2, <- dtfsb_snoc; reflexivity).
+        rewrite (newtx22_same (step22 (step22 s))) by (rewrite W2, W3; reflexivity).
+        rewrite C1. unfold tail_log. replace (ns - k)%nat with (S (ns - S k)) by lia. reflexivity.
+  Qed.
+
+  Theorem bam_closed_loop22_timed : treaches (net22_send (net22_0 A0 B0 t0) dp pf 255 prio sa p) (tail_log 0).
+  Proof.
+    pose proof bstart as H0. pose proof (M0 _ H0) as H1.
+    replace (tail_log 0) with (newtx22 (net22_send (net22_0 A0 B0 t0) dp pf 255 prio sa p)
+                                       (step22 (net22_send (net22_0 A0 B0 t0) dp pf 255 prio sa p)) ++ tail_log 0).
+    - apply treaches_step. apply (wait_treaches (ns - 0)%nat 0%nat); [reflexivity|exact H1].
+    - rewrite newtx22_same; [reflexivity|].
+      rewrite (wait_w _ _ H1). destruct H0 as (_ & _ & _ & _ & _ & _ & _ & Hw). rewrite Hw. reflexivity.
+  Qed.
 End BamLoop22.
 
 (* T02.10: the FD broadcast closed loop, stated without the proof's vocabulary *)
@@ -469,6 +534,33 @@ Proof.
   destruct (bam_closed_loop22 prio sa dp pf p t0 A0 B0 H1 H2 H3 H4 H5 H6 H7 HA HB H8) as (j & H). exists j. exact H.
 Qed.
 
+(* T09.16: the same run with its times: the data frame of segment k leaves at t0 + (k+1)·iv, the end-of-message status one
+   interval after the last — consecutive frames of the broadcast are exactly the configured interval apart *)
+Theorem bam_closed_loop22_paced prio sa dp pf p t0 A0 B0 :
+  0 <= prio < 8 -> 0 <= sa < 255 -> 0 <= pf < 240 -> 0 <= dp < 2 -> 60 < len p < 16777216 -> 0 < t0 ->
+  0 < f_bam_iv A0 < tp22_T1 -> 2 * f_bam_iv A0 < tp22_T1 ->
+  f_snd A0 = [] /\ f_rcv A0 = [] /\ f_mpg A0 = [] /\ n_timers (base A0) = [] /\ f_bam A0 = repeat true tp22_pool_bam ->
+  f_snd B0 = [] /\ f_rcv B0 = [] /\ f_mpg B0 = [] /\ n_timers (base B0) = [] ->
+  let pv := dp * 65536 + pf * 256 in
+  let ns := ((length p + 59) / 60)%nat in
+  let iv := f_bam_iv A0 in
+  let s0 := net22_send (net22_0 A0 B0 t0) dp pf 255 prio sa p in
+  wab2 s0 = [tp22_bam prio sa 0 pv (len p) (Z.of_nat ns)] /\ fclk s0 = t0 /\
+  exists j, (pa (steps22 j s0) = [] /\ pb (steps22 j s0) = [] /\ f_snd (fa (steps22 j s0)) = [] /\ f_rcv (fb (steps22 j s0)) = [] /\
+             evb2 (steps22 j s0) = deliveries (base B0) 7 pv sa addr_GLOBAL p) /\
+    tlog22 j s0 = map (fun k => (t0 + Z.of_nat (S k) * iv, dtfb prio sa dp pf p k)) (seq 0 ns)
+                  ++ [(t0 + Z.of_nat (S ns) * iv, tp22_eom_status sa addr_GLOBAL 0 (len p) (Z.of_nat ns) pv)].
+Proof.
+  intros H1 H2 H3 H4 H5 H6 H7 H8 HA HB pv ns iv s0.
+  pose proof (bstart prio sa dp pf p t0 A0 B0) as HS.
+  repeat match type of HS with ?P -> _ => specialize (HS ltac:(assumption)) end.
+  destruct HS as (Hc & _ & _ & _ & _ & _ & _ & Hw).
+  split; [exact Hw|]. split; [exact Hc|].
+  destruct (bam_closed_loop22_timed prio sa dp pf p t0 A0 B0 H1 H2 H3 H4 H5 H6 H7 HA HB H8) as (j & Hd & Hl). exists j.
+  split; [|unfold s0; rewrite Hl; unfold tail_log; rewrite Nat.sub_0_r; reflexivity].
+  destruct Hd as (Q1 & Q2 & Q3 & Q4 & Q5 & Q6 & Q7 & Q8 & _). repeat split; assumption.
+Qed.
+
 Example bam_closed_loop22_instance :
   let A := init_node22 3 None None in
   let B := sub22 (init_node22 2 None None) 7 FNone in
@@ -477,3 +569,10 @@ Example bam_closed_loop22_instance :
   quiet22 s = true /\ evb2 s = [OCb 7 7 61184 128 p] /\ length (wab2 s) = 5%nat /\ wba2 s = [] /\
   fclk s = 1000 + 4 * f_bam_iv A /\ 2 * f_bam_iv A < tp22_T1.
 Proof. vm_compute. repeat split. Qed.
+
+Example bam_closed_loop22_times :
+  let A := init_node22 3 None None in
+  let B := sub22 (init_node22 2 None None) 7 FNone in
+  let p := map Z.of_nat (seq 1 150) in
+  map fst (tlog22 13 (net22_send (net22_0 A B 1000) 0 239 255 6 128 p)) = [1000 + f_bam_iv A; 1000 + 2 * f_bam_iv A; 1000 + 3 * f_bam_iv A; 1000 + 4 * f_bam_iv A].
+Proof. vm_compute. reflexivity. Qed.
